@@ -13,6 +13,8 @@ ITEMS = [
     ("-", "  two spaces after the prefix"),            # irregular spacing
     ("o P2", "  two spaces after the priority"),       # irregular spacing
     ("-", " 240105 six digit first word"),             # YYMMDD modify date but no ZID
+    ("-", "  2024-01-03 dated after two spaces"),      # irregular spacing AND a leading long date
+    ("o P2", "   2024-01-03 dated after three spaces"),
 ]
 CONTS = [[], ["  * bullet", "  more text"]]
 EXISTING = "- 240101#07 already has a zid"
